@@ -4,8 +4,16 @@
    chk_rv    : the real RepeatVariable methods at (position, length) vs Model/TALES.v;
    chk_trace : the abstract VM of Model/TALVM.v, driven by the decisions the REAL interpreter
                took (recorded per executed command), visits exactly the same program counters,
-               terminates, and ends with the same context key sets as the real Context. *)
-From PG Require Import Lib.Str Model.TALES Model.TALProg Model.TALVM.
+               terminates, and ends with the same context key sets as the real Context;
+   chk_compile : the event stream html.parser produced for a template (recorded from the real
+               parser class) goes through Model/TALCompile.compile and the result is structurally
+               equal to the REAL commandList / symbolTable / macros (None = the real compiler raised);
+   chk_eval  : Model/TALESEval.evaluate, with the REAL traversePath results (recorded per call) as
+               its traversal oracle and the real eval results as its python oracle, returns what the
+               REAL Context.evaluate returned and performs as many python evaluations;
+   chk_out   : tagAsText / text and structure content / cmdAttributes output vs Model/TALOut.v. *)
+From Coq Require Import String.
+From PG Require Import Lib.Str Model.TALES Model.TALProg Model.TALVM Model.TALCompile Model.TALESEval Model.TALOut.
 Local Open Scope N_scope.
 
 Definition chk_wf (c : program * (symtab * macrotab)) : bool :=
@@ -54,3 +62,86 @@ Definition chk_trace (c : (program * (symtab * macrotab)) * (list entry * (list 
        | [], [], [] => true | _, _, _ => false end)
   | _ => false
   end.
+
+(* ---- compiler model vs real compiler ---- *)
+Definition pair_eqb (a b : str * str) : bool := str_eqb (fst a) (fst b) && str_eqb (snd a) (snd b).
+Definition subt_eqb (a b : subt) : bool := Nat.eqb (fst a) (fst b) && Nat.eqb (snd a) (snd b).
+Definition slot_eqb (a b : str * subt) : bool := str_eqb (fst a) (fst b) && subt_eqb (snd a) (snd b).
+Definition def_eqb (a b : bool * (str * str)) : bool := Bool.eqb (fst a) (fst b) && pair_eqb (snd a) (snd b).
+
+Definition cmd_eqb (a b : cmd) : bool :=
+  match a, b with
+  | CDefine x, CDefine y => list_eqb def_eqb x y
+  | CCondition e s, CCondition e' s' => str_eqb e e' && Nat.eqb s s'
+  | CRepeat v e s, CRepeat v' e' s' => str_eqb v v' && str_eqb e e' && Nat.eqb s s'
+  | CContent r t e s, CContent r' t' e' s' => Bool.eqb r r' && Bool.eqb t t' && str_eqb e e' && Nat.eqb s s'
+  | CAttributes x, CAttributes y => list_eqb pair_eqb x y
+  | COmitTag e, COmitTag e' => str_eqb e e'
+  | CStartScope o c, CStartScope o' c' => list_eqb pair_eqb o o' && list_eqb pair_eqb c c'
+  | COutput s, COutput s' => str_eqb s s'
+  | CStartTag t g, CStartTag t' g' => str_eqb t t' && Bool.eqb g g'
+  | CEndTagEndScope t o g, CEndTagEndScope t' o' g' => str_eqb t t' && Bool.eqb o o' && Bool.eqb g g'
+  | CNoOp, CNoOp => true
+  | CUseMacro e sl s, CUseMacro e' sl' s' => str_eqb e e' && list_eqb slot_eqb sl sl' && Nat.eqb s s'
+  | CDefineSlot n s, CDefineSlot n' s' => str_eqb n n' && Nat.eqb s s'
+  | _, _ => false
+  end.
+
+Definition symp_eqb (a b : nat * nat) : bool := Nat.eqb (fst a) (fst b) && Nat.eqb (snd a) (snd b).
+
+Definition prog_eqb (a b : program * (symtab * macrotab)) : bool :=
+  list_eqb cmd_eqb (fst a) (fst b) && list_eqb symp_eqb (fst (snd a)) (fst (snd b)) &&
+  list_eqb slot_eqb (snd (snd a)) (snd (snd b)).
+
+(* ((v_text, (v_cdata, v_eof)), (events, real result)) *)
+Definition chk_compile (c : (bool * (bool * bool)) * (list event * option (program * (symtab * macrotab)))) : bool :=
+  let '((vt, (vc, ve)), (evs, real)) := c in
+  match compile (mkVariant vt vc ve) evs, real with
+  | COk p, Some q => prog_eqb p q
+  | CErr, None => true
+  | _, _ => false
+  end.
+
+(* ---- Context.evaluate ---- *)
+(* a value as far as evaluate looks at it: (text, (is None, (== default marker, bool()))) *)
+Definition cval := (str * (bool * (bool * bool)))%type.
+Definition DEFAULT_MARK : str := lit "This represents a Default value."%string.
+Definition cv_false : cval := (lit "0"%string, (false, (false, false))).
+Definition cv_true : cval := (lit "1"%string, (false, (false, true))).
+Definition cv_str (s : str) : cval :=
+  (s, (false, (str_eqb s DEFAULT_MARK, match s with [] => false | _ => true end))).
+Definition cv_miss : cval := (lit "<<path never traversed by the real code>>"%string, (false, (false, true))).
+Definition cval_eqb (a b : cval) : bool :=
+  str_eqb (fst a) (fst b) && Bool.eqb (fst (snd a)) (fst (snd b)) &&
+  Bool.eqb (fst (snd (snd a))) (fst (snd (snd b))) && Bool.eqb (snd (snd (snd a))) (snd (snd (snd b))).
+
+Fixpoint trav_lookup (t : list ((str * bool) * option cval)) (p : str) (call : bool) : option cval :=
+  match t with
+  | [] => Some cv_miss
+  | ((q, c), v) :: r => if str_eqb q p && Bool.eqb c call then v else trav_lookup r p call
+  end.
+Fixpoint py_lookup (t : list (str * cval)) (e : str) : cval :=
+  match t with
+  | [] => cv_miss
+  | (q, v) :: r => if str_eqb q e then v else py_lookup r e
+  end.
+
+(* ((allowPythonPath, expression), (traversals, python results)), (real result, real number of evals) *)
+Definition chk_eval (c : ((bool * str) * (list ((str * bool) * option cval) * list (str * cval))) * (option cval * nat)) : bool :=
+  let '(((allow, e), (tr, pt)), (real, evals)) := c in
+  let '(r, n) := evaluate cval cv_false cv_true cv_str (fun v => fst (snd v)) (fun v => fst (snd (snd v)))
+                          (fun v => snd (snd (snd v))) (fun v => fst v) (trav_lookup tr) (py_lookup pt)
+                          (S (List.length e)) allow e in
+  opt_eqb cval_eqb r real && Nat.eqb n evals.
+
+(* ---- output functions ---- *)
+(* ((tag, (attributes, value)), (interpreter tagAsText, (compiler tagAsText,
+     (<p tal:content="v">, (<p tal:content="structure v">, <p id="i" tal:attributes="title v">x</p>))))) *)
+Definition chk_out (c : (str * (list (str * str) * str)) * (str * (str * (str * (str * str))))) : bool :=
+  let '((tag, (atts, v)), (t1, (t2, (o1, (o2, o3))))) := c in
+  let P := lit "p"%string in
+  str_eqb (start_tag_text tag atts) t1 && str_eqb (tag_as_text tag atts) t2 &&
+  str_eqb (start_tag_text P [] ++ content_text false v ++ end_tag_text P) o1 &&
+  str_eqb (start_tag_text P [] ++ content_text true v ++ end_tag_text P) o2 &&
+  str_eqb (start_tag_text P (apply_attributes [(lit "title"%string, AValue v)] [(lit "id"%string, lit "i"%string)])
+           ++ lit "x"%string ++ end_tag_text P) o3.
